@@ -259,10 +259,32 @@ def run_random_histories(ctx: Ctx, focus: str, quick: bool) -> None:
     ctx.traces += done
 
 
+def _function_values(v, depth=0):
+    if depth > 4:
+        return
+    if getattr(v, "body", None) is not None and hasattr(v.body, "links"):
+        yield v
+    for x in getattr(v, "vals", None) or []:
+        yield from _function_values(x, depth + 1)
+
+
 def run_catalog(ctx: Ctx, focus: str) -> None:
     """Builder-made HUGRs of the catalogue (attributes: polymorphic functions, deltas, non-ASCII metadata, nested JSON...)."""
     from ..catalog import modules
+    from hugr import ops
     for name, h in modules():
         ctx.evaluations += 1
         ctx.nontriv(name)
         check_hugr(ctx, focus, h, {"catalog": name}, {"source": "catalog", "name": name})
+        # history: the HUGR has been serialized (above); now the body of a function-valued constant is changed through the public
+        # API and the HUGR is checked again - the second document must describe the HUGR as it is now
+        bodies = [v.body for _, d in h.nodes() if isinstance(d.op, ops.Const) for v in _function_values(d.op.val)]
+        if bodies:
+            ctx.evaluations += 1
+            for bd in bodies:
+                bd[bd.root].metadata["edited-after-first-serialization"] = [0, None]
+                kids = bd.children(bd.root)
+                if len(kids) >= 2:
+                    bd.add_order_link(kids[0], kids[1])
+            check_hugr(ctx, focus, h, {"catalog": name, "history": "function constant body edited after a first serialization"},
+                       {"source": "catalog", "name": name, "history": "body-edited"})
